@@ -388,7 +388,9 @@ fn gen_from(r: &mut Rng, cat: &Catalog, feats: &mut Vec<&'static str>, allow_cte
             let mut f2 = vec![];
             let wher = if r.bool() { format!(" WHERE {}", predicate(r, &inner_scope, 1, &mut f2)) } else { String::new() };
             // sometimes the CTE takes the name of an existing table: the CTE is the one in scope
-            let name = if r.chance(1, 3) { r.pick(&cat.tables).name.clone() } else { "w".to_string() };
+            // (not the table its body reads: SQLite calls that a circular reference, PostgreSQL reads the base table)
+            let other: Vec<&TableDef> = cat.tables.iter().filter(|t| t.name != t1.name).collect();
+            let name = if r.chance(1, 3) && !other.is_empty() { r.pick(&other).name.clone() } else { "w".to_string() };
             if name != "w" {
                 feats.push("cte_shadows_table");
             }
@@ -668,5 +670,41 @@ pub fn gen_query(r: &mut Rng, cat: &Catalog) -> GenQuery {
     let with = if ctes.is_empty() { String::new() } else { format!("WITH {} ", ctes.join(", ")) };
     let order_keys = LAST_ORDER.with(|o| o.borrow().clone());
     let unlimited_sql = LAST_UNLIMITED.with(|o| o.borrow().clone()).map(|u| format!("{}{}", with, u));
-    GenQuery { sql: format!("{}{}", with, s), features: feats, ordered, limited, unlimited_sql, order_keys }
+    let mut g = GenQuery { sql: format!("{}{}", with, s), features: feats, ordered, limited, unlimited_sql, order_keys };
+    if r.chance(1, 6) {
+        // output names that need their quotes: mixed case, a space
+        g.features.push("quoted_mixed_case_aliases");
+        let rename = |text: &str| -> String {
+            let mut out = text.to_string();
+            for p in ["c", "k", "m", "g"] {
+                for i in 0..10 {
+                    let from = format!("{}{}", p, i);
+                    let to = if i % 2 == 0 { format!("\"{}{}Cap\"", p.to_uppercase(), i) } else { format!("\"{} {}\"", p.to_uppercase(), i) };
+                    // whole words only
+                    let mut res = String::new();
+                    let bytes: Vec<char> = out.chars().collect();
+                    let mut k = 0;
+                    while k < bytes.len() {
+                        let is_start = k == 0 || !(bytes[k - 1].is_alphanumeric() || bytes[k - 1] == '_' || bytes[k - 1] == '"' || bytes[k - 1] == '.');
+                        let slice: String = bytes[k..(k + from.len()).min(bytes.len())].iter().collect();
+                        let after = bytes.get(k + from.len());
+                        let is_end = after.map_or(true, |c| !(c.is_alphanumeric() || *c == '_' || *c == '"'));
+                        if is_start && is_end && slice == from {
+                            res.push_str(&to);
+                            k += from.len();
+                        } else {
+                            res.push(bytes[k]);
+                            k += 1;
+                        }
+                    }
+                    out = res;
+                }
+            }
+            out
+        };
+        g.sql = rename(&g.sql);
+        g.unlimited_sql = g.unlimited_sql.as_ref().map(|u| rename(u));
+        g.order_keys = g.order_keys.iter().map(|(k, d)| (rename(k).trim_matches('"').to_string(), *d)).collect();
+    }
+    g
 }
